@@ -250,8 +250,12 @@ PROPS = {
         "and a Block1 upload; per transition: served-from-cache iff idle < expiry, fresh application call / no pre-expiry byte "
         "delivered iff idle > expiry, physical entries (live key instances) == entries within lifetime after every handler call. "
         "Plus linear retention histories (1..2000 intervening requests) and reclamation histories (1..50 abandoned 1 KiB "
-        "uploads). Thorough adds real-clock one-sided conformance runs. states = canonical (hook snapshot, capped idle times, "
-        "model progress).",
+        "uploads). Thorough adds the production-clock configuration: every sequence of 5 actions over {next, two other keys, "
+        "pause 260 ms} at expiry 150 ms through the same step oracle (model time = measured time; steps whose idle times are "
+        "not clearly < 0.4x or > 1.5x the expiry are discarded as inconclusive), retention and reclamation under the real clock. "
+        "If advancing the harness-owned clock does not expire the handler's state (an implementation that reads another clock), "
+        "those production-clock families (depth 4) replace the fake-clock ones as the deciding exploration. states = canonical "
+        "(hook snapshot, capped idle times, model progress).",
         ["oc"], ["oc", "rel", "realclock"],
     ),
 }
